@@ -76,6 +76,14 @@ pub fn psource_of(s: &Value, k: usize, allow_empty: bool) -> PSource {
 	}
 	let mut mem = src.mem_reader();
 	mem.name = format!("src{k}");
+	// every source has its own TileJSON document (name, bounds, zoom range, a vector layer: one shared, one of its own)
+	let doc = json!({"name": format!("source {k}"), "bounds": [-10.0 * k as f64, -5.0 * k as f64, 20.0 + k as f64, 30.0 + 2.0 * k as f64],
+		"minzoom": k, "maxzoom": 10 - k, "attribution": if k % 2 == 1 { json!("odd") } else { json!(["a", "b"]) },
+		"vector_layers": [{"id": "shared", "fields": {format!("f{k}"): "String", "common": "Number"}, "minzoom": k, "maxzoom": 9},
+			{"id": format!("only{k}"), "fields": {}, "description": format!("layer of source {k}")}]});
+	if let Ok(t) = versatiles_core::tilejson::TileJSON::try_from(doc.to_string().as_str()) {
+		mem.tilejson = t;
+	}
 	PSource { mem, tc, raw, tiles: src.tiles.clone(), src }
 }
 
@@ -174,6 +182,25 @@ fn pipe_case(rt: &tokio::runtime::Runtime, dir: &Path, case: &Value, n: usize) -
 		}
 	}
 	ev["child_cov"] = json!(child_cov);
+	// the TileJSON document an operation hands on is a function of its direct children's documents and of its own coverage
+	// (TileJson.tla via Pipeline.tla TjOk; beyond the listed properties): log the root's document, every direct child's
+	// document (each child built on its own) and the three values update_from_pyramid takes from the root's coverage
+	if !is_debug && tree["op"] != "leaf" {
+		let subtrees: Vec<&Value> = if tree["op"] == "overlay" { tree["srcs"].as_array().unwrap().iter().collect() } else { vec![&tree["src"]] };
+		let mut docs = vec![];
+		for child in subtrees {
+			let cv = render(child);
+			match catch(|| rt.block_on(factory.operation_from_vpl(&cv))) {
+				Ok(Ok(cop)) => docs.push(crate::tj::project(cop.get_tilejson())),
+				_ => docs.push(json!({"bounds":[],"center":[],"vals":[],"layers":[],"unbuildable":1})),
+			}
+		}
+		let p = &op.get_parameters().bbox_pyramid;
+		let micro = |v: f64| (v * 1e6).round() as i64;
+		ev["tj"] = json!({"root": crate::tj::project(op.get_tilejson()), "kids": docs,
+			"geo": p.get_geo_bbox().map(|b| vec![micro(b.0), micro(b.1), micro(b.2), micro(b.3)]).unwrap_or_default(),
+			"zmin": p.get_zoom_min().map(|z| z as i64).unwrap_or(-1), "zmax": p.get_zoom_max().map(|z| z as i64).unwrap_or(-1)});
+	}
 	let parameters = op.get_parameters().clone();
 	let declared = parameters.tile_compression.as_str().to_string();
 	ev["declared"] = json!({"tf": parameters.tile_format.as_str(), "tc": declared});
